@@ -141,7 +141,9 @@ class SyncedDict(SyncedCollection, MutableMapping):
                             self._validate({key: new_value})
                         self._data[key] = self._from_base(new_value, parent=self)
                     else:
-                        if new_value == existing:
+                        # Equal values of different types (1, 1.0 and True)
+                        # are different data.
+                        if new_value == existing and type(new_value) is type(existing):
                             continue
                         # A value of None must replace the nested collection
                         # (for _update, None means "leave the data unchanged").
